@@ -1935,7 +1935,11 @@ class GroupBy:
         )
 
         if self._sort:
-            result.sort_index(inplace=True)
+            if keep_input_index:
+                # the input's labels need not be sorted: keep the rows in their original order
+                result = result.iloc[np.argsort(ilocs, kind="stable")]
+            else:
+                result.sort_index(inplace=True)
 
         return result
 
